@@ -69,7 +69,7 @@ fn configs(thorough: bool) -> Vec<Config> {
     let counts: Vec<u32> = if thorough { vec![1, 2, 3, 10] } else { vec![1, 2, 10] };
     // (a literal name, and a literal spelled with escapes: a seeded shortcut for "patterns without * ? [" looked the
     // pattern up as a key name and forgot that the backslash is a metacharacter too)
-    let patterns: Vec<Option<&'static str>> = if thorough { vec![None, Some("*"), Some("[a-c]"), Some("?"), Some("c"), Some("\\c"), Some("\\[a-c]"), Some("x\\0?")] } else { vec![None, Some("[a-c]"), Some("c"), Some("\\c")] };
+    let patterns: Vec<Option<&'static str>> = if thorough { vec![None, Some("*"), Some("[a-c]"), Some("?"), Some("c"), Some("\\c"), Some("\\[a-c]"), Some("x\\0?"), Some("[c-a]"), Some("[^c-a]")] } else { vec![None, Some("[a-c]"), Some("c"), Some("\\c"), Some("[c-a]")] };
     let max_gaps = 6usize;
     for kind in 0..KINDS.len() {
         let types: Vec<Option<&'static str>> = if kind == 0 { if thorough { vec![None, Some("string"), Some("list")] } else { vec![None, Some("string")] } } else { vec![None] };
